@@ -888,8 +888,9 @@ def record(c, flavour, job, tuples, path):
             with open(cf, "w") as f:
                 f.write(job["text"])
             slim = {k: v for k, v in job.items() if k not in ("text", "stream", "surf", "pre_counts", "pre_sums", "blob")}
-            c.violation(key, text, files=[jf, cf], payload=slim)
-            c.sample(dict(verdict="violation", key=key, case=job["name"], text=text[:200]), cap=40)
+            new = c.violation(key, text, files=[jf, cf], payload=slim)
+            c.sample(dict(verdict="violation" if new else "known-finding", key=key, case=job["name"],
+                          text=text[:200]), cap=40)
 
 
 def crash_tuple(job, fail):
